@@ -94,7 +94,15 @@ func (f *FuzzPeer) mutate(b []byte) ([]byte, string) {
 	if len(c) == 0 {
 		return simkit.Bytes(t, "fzrand", 0, 8), "random-bytes"
 	}
-	switch simkit.Int(t, "fzkind", 0, 10) {
+	switch simkit.Int(t, "fzkind", 0, 12) {
+	case 11, 12:
+		// corruption inside a nested length-delimited field (a header inside a block, a commit inside a header, a block
+		// inside a sync response, ...) with the length prefixes of the enclosing fields made to fit again: the outer
+		// decoder hands the inner one a complete but damaged message
+		if out, how, ok := f.nestedMutate(c, 3); ok {
+			return out, "nested-" + how
+		}
+		return c[:len(c)/2], "truncated"
 	case 9:
 		// the length prefix of a length-delimited field (top level or one level down) replaced by a ten-byte varint
 		// of 2^63, 2^63+20 or 2^64-1
@@ -267,6 +275,142 @@ var hugeVarints = [][]byte{
 
 // replaceLengthPrefix walks the payload as a sequence of (key varint, value) fields, descending once into
 // length-delimited values, collects the positions of length prefixes and replaces the k-th (mod their number).
+// nestedMutate picks a length-delimited field of the message, damages its content (cut at a drawn offset, cut right
+// after a field key, one byte replaced, or - going one level down - the same inside one of its own fields) and
+// re-encodes it with a fitting length prefix.
+func (f *FuzzPeer) nestedMutate(b []byte, depth int) ([]byte, string, bool) {
+	t := f.W.T
+	type field struct{ start, val, end int } // key at start, content b[val:end]
+	var fields []field
+	readVarint := func(p int) (uint64, int) {
+		var v uint64
+		for i := 0; i < 10 && p+i < len(b); i++ {
+			v |= uint64(b[p+i]&0x7f) << (7 * uint(i))
+			if b[p+i] < 0x80 {
+				return v, i + 1
+			}
+		}
+		return 0, 0
+	}
+	var keyEnds []int // offsets right after a field key (of any wire type)
+	for p := 0; p < len(b); {
+		start := p
+		key, n := readVarint(p)
+		if n == 0 {
+			break
+		}
+		p += n
+		keyEnds = append(keyEnds, p)
+		if key&7 == 0 {
+			_, n := readVarint(p)
+			if n == 0 {
+				break
+			}
+			p += n
+			continue
+		}
+		if key&7 != 2 {
+			break
+		}
+		l, n := readVarint(p)
+		if n == 0 || l > uint64(len(b)) || p+n+int(l) > len(b) {
+			break
+		}
+		fields = append(fields, field{start, p + n, p + n + int(l)})
+		p += n + int(l)
+	}
+	if len(fields) == 0 {
+		return nil, "", false
+	}
+	fl := fields[simkit.Int(t, "fznfield", 0, len(fields)-1)]
+	content := append([]byte(nil), b[fl.val:fl.end]...)
+	var inner []byte
+	how := ""
+	if depth > 1 && len(content) > 2 && simkit.Bool(t, "fzndeeper") {
+		if in2, h, ok := f.nestedMutate(content, depth-1); ok {
+			inner, how = in2, h
+		}
+	}
+	if how == "" {
+		switch k := simkit.Int(t, "fznkind", 0, 3); {
+		case len(content) == 0:
+			inner, how = []byte{byte(simkit.Int(t, "fznbyte", 0, 255))}, "one-byte-content"
+		case k == 0:
+			inner, how = content[:simkit.Int(t, "fzncut", 0, len(content)-1)], "cut"
+		case k == 1:
+			// cut right after a field key of the inner message: the value (varint, boolean, length) is missing
+			sub := &FuzzPeer{W: f.W}
+			ends := sub.keyEnds(content)
+			if len(ends) == 0 {
+				inner, how = content[:len(content)/2], "cut"
+			} else {
+				inner, how = content[:ends[simkit.Int(t, "fznkey", 0, len(ends)-1)]], "cut-after-key"
+			}
+		case k == 2:
+			inner = content
+			inner[simkit.Int(t, "fznpos", 0, len(inner)-1)] = byte(simkit.Int(t, "fznbyte", 0, 255))
+			how = "byte-replaced"
+		default:
+			// a lone field key as the whole content: every field number up to 31, both wire types
+			inner, how = []byte{byte(simkit.Int(t, "fznfn", 1, 31)<<3 | []int{0, 2}[simkit.Int(t, "fznwt", 0, 1)])}, "lone-key"
+		}
+	}
+	_ = keyEnds
+	out := append([]byte(nil), b[:fl.start]...)
+	klen := fl.val - fl.start // key + old length prefix
+	// copy the key (everything before the old length prefix)
+	_, kn := readVarint(fl.start)
+	out = append(out, b[fl.start:fl.start+kn]...)
+	_ = klen
+	l := uint64(len(inner))
+	for l >= 0x80 {
+		out = append(out, byte(l)|0x80)
+		l >>= 7
+	}
+	out = append(out, byte(l))
+	out = append(out, inner...)
+	return append(out, b[fl.end:]...), how, true
+}
+
+// keyEnds lists the offsets right after each field key of a message.
+func (f *FuzzPeer) keyEnds(b []byte) []int {
+	var ends []int
+	readVarint := func(p int) (uint64, int) {
+		var v uint64
+		for i := 0; i < 10 && p+i < len(b); i++ {
+			v |= uint64(b[p+i]&0x7f) << (7 * uint(i))
+			if b[p+i] < 0x80 {
+				return v, i + 1
+			}
+		}
+		return 0, 0
+	}
+	for p := 0; p < len(b); {
+		key, n := readVarint(p)
+		if n == 0 {
+			break
+		}
+		p += n
+		ends = append(ends, p)
+		_, n2 := readVarint(p)
+		if n2 == 0 {
+			break
+		}
+		if key&7 == 0 {
+			p += n2
+		} else if key&7 == 2 {
+			l, _ := readVarint(p)
+			if l > uint64(len(b)) {
+				break
+			}
+			p += n2 + int(l)
+		} else {
+			break
+		}
+	}
+	return ends
+}
+
 func replaceLengthPrefix(b []byte, k, which int) ([]byte, bool) {
 	type span struct{ at, n int }
 	var spans []span
